@@ -528,6 +528,12 @@ func c08R2(c *Ctx) {
 			c.Ob("C08.R2", name, token.NoPos).Missing("container has no copy()")
 			continue
 		}
+		if ok, _ := delegateShape(a, ct, fn, "Clone"); ok {
+			// copy() is `return ego.Clone()`: the deep copy is implemented in Clone, which is judged in copy's place
+			if cl := a.ByName("(*" + ct.Named.Obj().Name() + ").Clone"); cl != nil {
+				fn = cl
+			}
+		}
 		s := a.sum[fn]
 		ob := c.Ob("C08.R2", name+"/result", fn.Pos())
 		fresh := len(s.RetEach) > 0
@@ -708,6 +714,14 @@ func c08R4(c *Ctx) {
 		n++
 		ob := c.Ob("C08.R4", name, fn.Pos())
 		ok, why := cloneShape(a, ct, fn)
+		if !ok {
+			// the other way round: copy() hands back Clone() of the receiver — the deep copy lives in Clone (decided there by R2)
+			if cp := a.ByName("(*" + ct.Named.Obj().Name() + ").copy"); cp != nil {
+				if ok2, _ := delegateShape(a, ct, cp, "Clone"); ok2 {
+					ok, why = true, "copy() returns Clone() of the receiver unmodified: the two are one operation, implemented in Clone"
+				}
+			}
+		}
 		if ok {
 			ob.Ok("%s", why)
 		} else {
@@ -719,6 +733,12 @@ func c08R4(c *Ctx) {
 
 // cloneShape: single return whose value is TypeAssert/ChangeInterface of a call to copy() on the receiver or its ego.
 func cloneShape(a *E3, ct *Cont, fn *ssa.Function) (bool, string) {
+	return delegateShape(a, ct, fn, "copy")
+}
+
+// delegateShape: fn's single return value is the (asserted/converted) result of calling `callee` on the receiver or its ego, and fn
+// does nothing else that mutates.
+func delegateShape(a *E3, ct *Cont, fn *ssa.Function, callee string) (bool, string) {
 	var ret *ssa.Return
 	for _, b := range fn.Blocks {
 		if r, ok := b.Instrs[len(b.Instrs)-1].(*ssa.Return); ok {
@@ -754,11 +774,11 @@ func cloneShape(a *E3, ct *Cont, fn *ssa.Function) (bool, string) {
 	args := callArgs(cc)
 	isCopy := false
 	for _, cal := range a.Callees(cc) {
-		if cal.Name() == "copy" && a.inPkg(cal) {
+		if cal.Name() == callee && a.inPkg(cal) {
 			isCopy = true
 		}
 	}
-	if !isCopy && cc.IsInvoke() && cc.Method.Name() == "copy" {
+	if !isCopy && cc.IsInvoke() && cc.Method.Name() == callee {
 		isCopy = true
 	}
 	if !isCopy || len(args) != 1 {
